@@ -947,6 +947,29 @@ class RecExecutor(_TPE):
         return super().submit(wrapped)
 
 
+# ------------------------------------------------------------------------------------------------ roles (no private name is hard-coded)
+def slot_roles(repo):
+    """→ (name of the instance attribute holding the connection-slot queue, names of the methods that take from it, name of the
+    thread-side one).  Found by what the objects ARE (an asyncio queue filled in __init__; methods whose code refers to it), so a
+    rename of a private attribute or method does not blind the instrumentation."""
+    import asyncio as _aio
+    cands = [k for k, v in vars(repo).items() if isinstance(v, _aio.Queue)]
+    attr = cands[0] if cands else '_slots'
+    users, thread_side = set(), None
+    for n, f in vars(type(repo)).items():
+        g = getattr(f, '__wrapped__', f)
+        code = getattr(g, '__code__', None)
+        if code is not None and attr in code.co_names and n != '__init__':
+            users.add(n)
+            if not (code.co_flags & 0x200) and not (code.co_flags & 0x80):      # neither async generator nor coroutine
+                thread_side = n
+    return attr, (users or {'_acquire_slot', '_acquire_slot_threadsafe'}), (thread_side or '_acquire_slot_threadsafe')
+
+
+def slots_of(repo):
+    return getattr(repo, slot_roles(repo)[0])
+
+
 class RecSlots(asyncio.PriorityQueue):
     """`Repository._slots` during an operation: logs every acquisition / release at the moment it happens (on the event loop)"""
     ctl = None
@@ -992,14 +1015,17 @@ class Instrument:
         M.ThreadPoolExecutor = RecExecutor
         ctl, repo = self.ctl, self.repo
         # slots
-        old = repo._slots
+        self.slots_attr, _users, _ts = slot_roles(repo)
+        VT.ROLE_NAMES.clear()
+        VT.ROLE_NAMES.update({n: ('_acquire_slot_threadsafe' if n == _ts else '_acquire_slot') for n in _users})
+        old = getattr(repo, self.slots_attr)
         q = RecSlots(maxsize=old.maxsize)
         q.ctl = ctl
         while not old.empty():
             q.put_nowait(old.get_nowait())
         q.armed = True
         self.old_slots = old
-        repo._slots = q
+        setattr(repo, self.slots_attr, q)
         ctl.slots = q
         repo.__dict__.pop('_default_backend_executor', None)
         # writes and finalisations (instance attributes; absent names are simply not observed)
@@ -1060,7 +1086,7 @@ def run_controlled(ctl, repo, make_coro, quiesce_timeout=6.0):
             res['outcome'], res['error'] = 'teardown', e
         except BaseException as e:  # noqa: BLE001
             res['outcome'], res['error'] = 'error', e
-        res['slots_at_return'] = sorted(repo._slots._queue)
+        res['slots_at_return'] = sorted(slots_of(repo)._queue)
         with ctl.cv:
             ctl.op_done = True
             ctl.log.append(('op_done', res['outcome']))
@@ -1080,7 +1106,7 @@ def run_controlled(ctl, repo, make_coro, quiesce_timeout=6.0):
                     break
             await asyncio.sleep(0.003)
         res['quiescent'] = quiet
-        res['slots_after'] = sorted(repo._slots._queue)
+        res['slots_after'] = sorted(slots_of(repo)._queue)
         ctl.shutdown()
 
     with Instrument(ctl, repo):
@@ -1153,14 +1179,15 @@ def _probe_failed_restore(spec):
                 if t is _threading.main_thread() or t.daemon or t.ident not in frames:
                     continue
                 names = [f.name for f in traceback.extract_stack(frames[t.ident])]
-                if names and names[-1] in ('wait', 'result') and ('_acquire_slot_threadsafe' in names or '_maybe_run_coroutine_threadsafe' in names):
-                    res.append((t.name, '_acquire_slot_threadsafe' if '_acquire_slot_threadsafe' in names else '_maybe_run_coroutine_threadsafe'))
+                ts = slot_roles(repo2)[2]
+                if names and names[-1] in ('wait', 'result') and (ts in names or '_maybe_run_coroutine_threadsafe' in names):
+                    res.append((t.name, '_acquire_slot_threadsafe' if ts in names else '_maybe_run_coroutine_threadsafe'))
             return sorted(res)
         b1 = blocked_now()
         time.sleep(0.4)
         b2 = blocked_now()
         out['blocked'] = [x for x in b1 if x in b2]
-        out['slots_free'] = sorted(repo2._slots._queue)
+        out['slots_free'] = sorted(slots_of(repo2)._queue)
         out['downloads_started'] = state['calls']
     return out
 
